@@ -8,6 +8,8 @@
 //     S         snap = vector.snapshot()         G<i>      &snap[i]   (thread-local snapshot)
 //     F<b>-<e>  vector.for_each(b, e, cb)        L<b>-<e>  vector.fill_n(b, e-b, v)     P<b>-<e>  vector.copy_n(src, e-b, b)
 //     C         vector.gc()                      A<sec>    let virtual time pass
+//     W<+-sec>  the calendar clocks (CLOCK_REALTIME*, CLOCK_TAI) are stepped by +-sec (NTP step, date -s, VM resume);
+//               elapsed (monotonic) virtual time is unaffected; the accumulated offset is undone at the end of the case
 //   choices = comma separated replay list for strategy 2
 //   optional 7th field <setup> ('-' = none): whole-object operations executed sequentially BEFORE the threads start, on
 //   vector objects in slots 0..3 (all of the case's block type), ops separated by ',':
@@ -220,6 +222,12 @@ static void run_case(const char* id, unsigned long long seed, int strategy, size
   trk::stale_push = false; trk::destructing = false; memset(trk::changed_in_op, 0, sizeof trk::changed_in_op);
   trk::blocks_created = trk::blocks_dead = trk::tables_created = trk::tables_freed = trk::blocks_freed_all = 0;
   std::map<size_t, Elem*> addr_of_index; std::map<Elem*, size_t> index_of_addr;
+  long long wall_sum = 0;   // seconds the calendar clock was stepped by so far in this case
+  // (the shim computes the calendar time as unsigned virtual ns + offset: never let it go below the start of the run)
+  auto step_wall = [&](long long sec) {
+    if ((long long)(verif::now_ns() / 1000000000ull) + wall_sum + sec < 0) return;
+    wall_sum += sec; verif::step_wall_clock((int64_t)sec * 1000000000ll);
+  };
   void* last_cur = nullptr;
   Vec* vec = nullptr;
   trk::in_hook++;
@@ -258,6 +266,7 @@ static void run_case(const char* id, unsigned long long seed, int strategy, size
     std::stringstream ss(setup); std::string o;
     while (std::getline(ss, o, ',')) {
       if (o.size() < 2) continue;
+      if (o[0] == 'W') { step_wall(atoll(o.c_str() + 1)); continue; }
       int a = o[1] - '0'; long long b = 0; size_t dot = o.find('.');
       if (dot != std::string::npos) b = atoll(o.c_str() + dot + 1);
       if (a < 0 || a > 3) continue;
@@ -431,6 +440,7 @@ static void run_case(const char* id, unsigned long long seed, int strategy, size
           } break;
           case 'C': vec->gc(); sample(); op.res = "u"; break;
           case 'A': verif::advance_time((uint64_t)op.a * 1000000000ull); op.res = "u"; break;
+          case 'W': step_wall(op.a); op.res = "u"; break;
         }
         // own push carried a stamp that is not the current time unit (DESIGN F4: stale retire stamp)
         if (trk::changed_in_op[t]) {
@@ -503,6 +513,7 @@ static void run_case(const char* id, unsigned long long seed, int strategy, size
   snprintf(stats, sizeof stats, " blocks=%d bdead=%d tables=%d tfreed=%d rlist=%d", trk::blocks_created, trk::blocks_dead,
            trk::tables_created, trk::tables_freed, rlist);
   out += stats;
+  verif::step_wall_clock(-(int64_t)wall_sum * 1000000000ll); wall_sum = 0;   // the process runs many cases
   // what the whole-object phase + the threads left in every slot
   check_recorded("the concurrent phase");
   std::string objs;
